@@ -271,4 +271,55 @@ func extractC13(o *out) {
 		fail("newUser: the `if u == nil { …; s.accept <- u; return u, nil }` block is not in the recognised shape (%d returns, %d sends to s.accept)", freshReturns, accepts)
 	}
 	fmt.Fprintf(b, "/-- does newUser have a return path that hands out a session which was in `connections` already (instead of one it\n    has just created in an empty slot and sent to `accept`)? -/\ndef newUserReturnsExisting : Bool := %v\n", returnsExisting)
+
+	// validateAndGetUser: the live table decides.  `user := s.connections[userId]` comes first and every look at
+	// `s.oldConnections` happens under `if user == nil { … }`: what the retired table remembers under an identifier can only
+	// matter while no live session holds that identifier.
+	va := findFunc(f, "ServerDnsListener", "validateAndGetUser")
+	liveFirst := false
+	if va == nil || va.Body == nil || len(va.Body.List) == 0 {
+		fail("validateAndGetUser not found")
+	} else {
+		liveVar := ""
+		if as, ok := va.Body.List[0].(*ast.AssignStmt); ok && len(as.Lhs) == 1 && len(as.Rhs) == 1 {
+			if ix, ok := as.Rhs[0].(*ast.IndexExpr); ok && exprString(ix.X) == "s.connections" {
+				liveVar = exprString(as.Lhs[0])
+			}
+		}
+		liveFirst = liveVar != ""
+		// statements after `if <liveVar> != nil { …; return … }` (no else) are reached only when no live session holds the identifier
+		liveHandled := false
+		for _, top := range va.Body.List {
+			var st []ast.Node
+			ast.Inspect(top, func(n ast.Node) bool {
+				if n == nil {
+					st = st[:len(st)-1]
+					return true
+				}
+				if sel, ok := n.(*ast.SelectorExpr); ok && sel.Sel.Name == "oldConnections" {
+					guarded := liveHandled
+					for k, a := range st {
+						if is, ok := a.(*ast.IfStmt); ok && liveVar != "" && k+1 < len(st) && st[k+1] == ast.Node(is.Body) {
+							if be, ok := is.Cond.(*ast.BinaryExpr); ok && be.Op == token.EQL && exprString(be.X) == liveVar && exprString(be.Y) == "nil" {
+								guarded = true
+							}
+						}
+					}
+					if !guarded {
+						liveFirst = false
+					}
+				}
+				st = append(st, n)
+				return true
+			})
+			if is, ok := top.(*ast.IfStmt); ok && is.Else == nil && is.Init == nil && len(is.Body.List) > 0 {
+				if be, ok := is.Cond.(*ast.BinaryExpr); ok && be.Op == token.NEQ && exprString(be.X) == liveVar && exprString(be.Y) == "nil" {
+					if _, ret := is.Body.List[len(is.Body.List)-1].(*ast.ReturnStmt); ret {
+						liveHandled = true
+					}
+				}
+			}
+		}
+	}
+	fmt.Fprintf(b, "/-- validateAndGetUser reads `s.connections[userId]` first and consults `s.oldConnections` only inside\n    `if <that variable> == nil { … }` -/\ndef validateLiveTableFirst : Bool := %v\n", liveFirst)
 }
